@@ -34,7 +34,7 @@ static pthread_t poster[MAXP];
 static int posters_done;
 static int owner_ops;
 static struct iv_fd *xfd;		/* a descriptor of the owner that becomes ready together with a post */
-static int xfd_kfd = -1, xfd_registered, xfd_calls;
+static int xfd_kfd = -1, xfd_registered, xfd_calls, xfd_reused;
 
 static void handler(void *c);
 
@@ -70,6 +70,7 @@ static void post(struct erec *r)
 static void xfd_in(void *c)
 {
 	sx_assert(xfd_registered, "C01.fd-handler-after-unregister");
+	sx_assert(kfds[xfd_kfd].rd, "C03.handler_in-for-descriptor-that-was-never-ready");
 	xfd_calls++;
 	kfds[xfd_kfd].rd = 0;	/* the data is consumed */
 	sx_cover("event.fd-in-same-batch-handled");
@@ -80,6 +81,18 @@ static void handler(void *c)
 	struct erec *r = c;
 	int a;
 
+	if (xfd_registered && sx_opt("withfd", 0) == 3 && !xfd_reused && sx_choose(2)) {
+		/* C03: the connection is replaced: same struct, new descriptor on which nothing ever arrives */
+		sx_cover("event.handler-reuses-fd-struct-of-same-batch");
+		iv_fd_unregister(xfd);
+		xfd_kfd = k_new_generic();
+		xfd_reused = 1;
+		IV_FD_INIT(xfd);
+		xfd->fd = xfd_kfd;
+		xfd->cookie = xfd;
+		xfd->handler_in = xfd_in;
+		iv_fd_register(xfd);
+	}
 	if (xfd_registered && sx_opt("withfd", 0) == 2 && sx_choose(2)) {
 		/* C01: the descriptor's event may already be collected in this iteration */
 		sx_cover("event.handler-unregisters-fd-of-same-batch");
@@ -141,9 +154,11 @@ static void *poster_main(void *arg)
 
 	for (q = 0; q < nQ; q++) {
 		int e = nE > 1 ? sx_choose(nE) : 0;
+		if (sx_opt("preops", 0) && nE > 1)
+			e = nE > 2 ? 1 + sx_choose(nE - 1) : 1;
 		sx_note("post", e);
 		post(&E[e]);
-		if (xfd_kfd >= 0)
+		if (xfd_kfd >= 0 && !xfd_reused)
 			kfds[xfd_kfd].rd = 1;	/* data arrives on the owner's descriptor right after the post */
 	}
 	posters_done++;
@@ -248,8 +263,30 @@ void sx_main(void)
 			for (i = 1; i < nE; i++)
 				post(&E[i]);	/* all collected for the same dispatch run */
 	}
+	if (sx_opt("preops", 0)) {
+		/* the owner posts to and unregisters its events before its loop gets to run them */
+		int n = (int)sx_opt("preops", 0), k;
+
+		for (k = 0; k < n; k++) {
+			/* only event 0 is ever unregistered here; the posters leave it alone */
+			int c = sx_choose(2 + nE);
+			if (c == 0)
+				break;
+			if (c <= nE) {
+				if (E[c - 1].registered) {
+					sx_note("op:owner-post", c - 1);
+					post(&E[c - 1]);
+				}
+			} else if (E[0].registered) {
+				sx_note("op:owner-unregister", 0);
+				if (E[0].post_begin > E[0].handler_begin)
+					sx_cover("event.unregister-while-pending");
+				ev_unregister(&E[0]);
+			}
+		}
+	}
 	iv_main();
-	if (P_owner_acts == 2) {
+	if (P_owner_acts == 2 || sx_opt("preops", 0)) {
 		/* the handlers unregistered every event: the loop is right to return */
 		for (i = 0; i < MAXE; i++)
 			sx_assert(!E[i].registered, "C07.iv_main-returned-with-events-registered");
